@@ -8,6 +8,7 @@ Register with  chk.require_theorems('Properties.C20c', THEOREMS)  in the C20 che
 THEOREMS = [
     'C20c_reify_edges_fixed_point',
     'C20c_reify_attributes_fixed_point',
+    'C20c_dereify_edges_fixed_point',
     'C20c_closed_graphs',
     'C20c_reify_edges_idempotent',
     'C20c_reify_attributes_idempotent',
@@ -17,6 +18,8 @@ THEOREMS = [
     'C20c_certificate_sound',
     'C20c_certificate_without_canonicalize',
     'C20c_certificate_nonvacuous',
+    'C20c_dereify_certified',
     'C20c_F30_refuted',
     'C20c_F32_refuted',
+    'C20c_F33_refuted',
 ]
